@@ -4,6 +4,7 @@ import Driver.ArgDriver
 import Driver.RunnerDriver
 import Driver.CodecDriver
 import Driver.QNameDriver
+import Driver.VersionDriver
 open Driver
 
 def main (args : List String) : IO UInt32 := do
@@ -15,5 +16,6 @@ def main (args : List String) : IO UInt32 := do
   | ["runner"] => loop RunnerDriver.stepLine stdin stdout {}; return 0
   | ["codec"] => loop CodecDriver.stepLine stdin stdout []; return 0
   | ["qname"] => loop QNameDriver.stepLine stdin stdout ([] : Memento.QName.CodeBase); return 0
+  | ["version"] => loop VersionDriver.stepLine stdin stdout ({} : VersionDriver.St); return 0
   | ["store"] => loop StoreDriver.stepLine stdin stdout StoreDriver.St.none; return 0
   | _ => IO.eprintln "usage: mmodel <model>"; return 2
